@@ -1,8 +1,8 @@
 (* C17 - the relational model handed to transforms is a lossless image of the module.
    Statements only; proofs by `exact`. *)
-From Coq Require Import List NArith ZArith PArith Permutation.
+From Coq Require Import String List NArith ZArith PArith Permutation Sorted.
 Import ListNotations.
-Require Import Verif.Relmod.Model Verif.Relmod.StmtProps Verif.Relmod.Run Verif.Relmod.CensusProps Verif.Relmod.OrderProps Verif.Relmod.Rebuild
+Require Import Verif.Relmod.Model Verif.Relmod.PayloadProps Verif.Relmod.StmtProps Verif.Relmod.Run Verif.Relmod.CensusProps Verif.Relmod.OrderProps Verif.Relmod.Rebuild
   Verif.Relmod.Shape Verif.Gen.RelmodShape.
 
 (* position paths of the Stmt rows of one endpoint are pairwise distinct - for the path construction the CURRENT
@@ -47,15 +47,19 @@ Print Assumptions C17_stmt_paths_unique_refuted_for_shared_append.
    `project m` - per application: names, attributes, and in walk order its mixins, endpoints (names, REST method/path,
    event source, parameters with location/index/optionality/type, statement rows), events, types (optionality, kind,
    primary key, enum items, alias target, fields with optionality/constraint/type incl. set/sequence wrapping and
-   reference target application + path) and views. Every module, no side conditions. ---- *)
+   reference target application + path) and views; with every element and annotation its source contexts (the Src
+   relations), with every annotation its value (attrToValue), with every return row what the payload reader extracts:
+   status, type resolved against the statement's application, modifiers, name-value pairs.
+   Every module, no side conditions. ---- *)
 Theorem C17_rows_lossless : forall m rs,
-  normalize child_index_mode alt_index_mode m = Rows rs -> rebuild rs = project m.
+  normalize child_index_mode alt_index_mode payload_grammar m = Rows rs -> rebuild rs = project payload_grammar m.
 Proof. exact current_rows_lossless. Qed.
 Print Assumptions C17_rows_lossless.
 
 Theorem C17_rows_determine_projection : forall m1 m2 rs,
-  normalize child_index_mode alt_index_mode m1 = Rows rs -> normalize child_index_mode alt_index_mode m2 = Rows rs ->
-  project m1 = project m2.
+  normalize child_index_mode alt_index_mode payload_grammar m1 = Rows rs ->
+  normalize child_index_mode alt_index_mode payload_grammar m2 = Rows rs ->
+  project payload_grammar m1 = project payload_grammar m2.
 Proof. exact current_rows_determine_projection. Qed.
 Print Assumptions C17_rows_determine_projection.
 
@@ -64,36 +68,89 @@ Print Assumptions C17_rows_determine_projection.
    `census R m` (Relmod/CensusProps.v) is the number of R-elements of m: each application contributes one to RApp
    and one to RTag OApp per tag ..., each visible statement one to RStmt, and so on. *)
 Theorem C17_census_exact_counts : forall m rs,
-  normalize child_index_mode alt_index_mode m = Rows rs -> forall R, rel_count R rs = census R m.
+  normalize child_index_mode alt_index_mode payload_grammar m = Rows rs -> forall R, rel_count R rs = census R m.
 Proof. exact current_census_exact_counts. Qed.
 Print Assumptions C17_census_exact_counts.
 
 Theorem C17_one_row_per_app : forall m rs,
-  normalize child_index_mode alt_index_mode m = Rows rs -> rel_count RApp rs = length m.
+  normalize child_index_mode alt_index_mode payload_grammar m = Rows rs -> rel_count RApp rs = length m.
 Proof. exact current_one_row_per_app. Qed.
 Print Assumptions C17_one_row_per_app.
 
-Theorem C17_one_stmt_row_per_visible_statement : forall a ep stmts,
-  rel_count RStmt (map (item_row a ep) (ep_items child_index_mode alt_index_mode stmts)) = list_sum (map visible_stmts stmts).
+Theorem C17_one_stmt_row_per_visible_statement : forall g a sa ep stmts,
+  rel_count RStmt (map (item_row g a sa ep) (ep_items child_index_mode alt_index_mode stmts)) = list_sum (map visible_stmts stmts).
 Proof. exact current_one_stmt_row_per_visible_statement. Qed.
 Print Assumptions C17_one_stmt_row_per_visible_statement.
 
-(* ---- succeeds or is refused, never a third outcome; refusal = a reachable payload the payload grammar refuses ---- *)
-Theorem C17_refused_iff : forall cm am m,
-  normalize cm am m = Refused <->
-  exists ap e s, In ap m /\ In e (ap_eps ap) /\ ep_visits_stmts e = true /\ In s (e_stmts e) /\ reaches_bad s.
+(* ---- succeeds or is refused: no rows exactly when a statement of a visited endpoint reaches a return payload the
+   payload reader (Payload.parse_payload, the embedded grammar transliterated) does not accept ---- *)
+Theorem C17_refused_iff : forall cm am g m,
+  (normalize cm am g m = Refused \/ normalize cm am g m = Crashed) <->
+  exists ap e s, In ap m /\ In e (ap_eps ap) /\ ep_visits_stmts e = true /\ In s (e_stmts e) /\ reaches_bad g s.
 Proof. exact refused_iff. Qed.
 Print Assumptions C17_refused_iff.
 
+(* ---- never a crash: for the payload reader of the CURRENT source no module whatsoever ends in a panic ---- *)
+Theorem C17_never_crashes : forall m, normalize child_index_mode alt_index_mode payload_grammar m <> Crashed.
+Proof. exact current_never_crashes. Qed.
+Print Assumptions C17_never_crashes.
+
+(* ... refuted for the reader that hands a name with two values to the failing type assertion (before the repair):
+   one endpoint `return ok <: T [k="1", k="2"]` *)
+Theorem C17_never_crashes_refuted_for_unchecked_duplicates :
+  exists m, normalize CopyParent CopyParent grammar_before m = Crashed.
+Proof. exact normalize_never_crashes_refuted_for_unchecked_duplicates. Qed.
+Print Assumptions C17_never_crashes_refuted_for_unchecked_duplicates.
+
+(* ---- what the payload reader extracts is canonical, for every payload text: a status, the modifiers as a strictly
+   ascending list (so the row is a function of the SET of modifiers - the code sorts them: g_mods = ModsSorted), the
+   name-value pairs with one value per name in ascending name order ---- *)
+Theorem C17_payload_attributes_canonical : forall s py,
+  parse_payload payload_grammar s = POk py ->
+  py_status py <> [] /\ StronglySorted str_lt (py_mods py) /\ StronglySorted str_lt (map fst (py_nvp py)).
+Proof. exact current_payload_canonical. Qed.
+Print Assumptions C17_payload_attributes_canonical.
+
+(* ---- every primitive the grammar lists is read as that primitive (rule level: any rest of the input at a word
+   boundary; payload level: "ok <: p" for each listed p) ---- *)
+Theorem C17_listed_primitives_accepted :
+  (forall p r, In p (g_prims payload_grammar) -> at_boundary r -> primitive payload_grammar (p ++ r) = Some (p, skip_ws r)) /\
+  (forall p, In p (g_prims payload_grammar) -> accepts_as_primitive payload_grammar p = true).
+Proof. exact (conj current_primitive_rule_accepts current_listed_primitives_accepted). Qed.
+Print Assumptions C17_listed_primitives_accepted.
+
+(* ... refuted for PRIMITIVE as an ordered choice of literals in declaration order (before the repair): "int" wins
+   over "int64" and `return ok <: int64` is refused *)
+Theorem C17_listed_primitives_refuted_for_declaration_order :
+  exists p, In p (g_prims grammar_before) /\ parse_payload grammar_before (bytes "ok <: "%string ++ p) = PErr.
+Proof. exact choice_primitive_refuted_for_declaration_order. Qed.
+Print Assumptions C17_listed_primitives_refuted_for_declaration_order.
+
+(* ---- reference targets of return types: without application the statement's application, else its own ---- *)
+Theorem C17_return_reference_resolution :
+  (forall sa path, unpack sa (PTRef [] path) = SRef sa [path]) /\
+  (forall sa sa' a app path, unpack sa (PTRef (a :: app) path) = unpack sa' (PTRef (a :: app) path)).
+Proof. exact (conj unpack_local_reference unpack_foreign_reference). Qed.
+Print Assumptions C17_return_reference_resolution.
+
+(* ---- annotation values: an integer attribute goes through float64 - exact below 2^53 (partial), not beyond (refuted) *)
+Theorem C17_integer_annotation_exact_partial : forall z, (Z.abs z < 2 ^ 53)%Z -> fvalue (f64_of_Z z) = z.
+Proof. exact f64_of_Z_exact_partial. Qed.
+Print Assumptions C17_integer_annotation_exact_partial.
+Theorem C17_integer_annotation_exact_refuted : exists z, (Z.abs z < 2 ^ 63)%Z /\ fvalue (f64_of_Z z) <> z.
+Proof. exact f64_of_Z_exact_refuted. Qed.
+Print Assumptions C17_integer_annotation_exact_refuted.
+
 (* ---- the same relations, row for row and in the same order, whatever order Go iterates the module's maps in:
    the code walks every map through sortedKeys (Gen.RelmodShape.unsorted_map_ranges = []), modelled by sorted_by ---- *)
-Theorem C17_normalize_order_independent : forall cm am m m',
-  Forall2 app_equiv m m' -> normalize cm am m = normalize cm am m'.
+Theorem C17_normalize_order_independent : forall cm am g m m',
+  Forall2 app_equiv m m' -> normalize cm am g m = normalize cm am g m'.
 Proof. exact normalize_order_independent. Qed.
 Print Assumptions C17_normalize_order_independent.
 
 Theorem C17_annotations_order_independent : forall o a keys p zs at_ at_',
-  a_tags at_ = a_tags at_' -> NoDup (a_annos at_) -> Permutation (a_annos at_) (a_annos at_') ->
+  a_tags at_ = a_tags at_' -> a_srcs at_ = a_srcs at_' ->
+  NoDup (map an_name (a_annos at_)) -> Permutation (a_annos at_) (a_annos at_') ->
   meta o a keys p zs at_ = meta o a keys p zs at_'.
 Proof. exact meta_order_independent. Qed.
 Print Assumptions C17_annotations_order_independent.
@@ -103,9 +160,14 @@ Theorem C17_shape_of_current_source :
   child_index_mode = CopyParent /\ alt_index_mode = CopyParent /\
   children_visited = [BCond; BLoop; BLoopN; BForeach; BGroup] /\
   (alt_visits_choice_children && alt_appends_choice_row && statement_appends_row && statement_calls_meta)%bool = true /\
-  unsorted_map_ranges = [].
+  unsorted_map_ranges = [] /\
+  (g_prim_mode payload_grammar = PrimWord /\ g_mods payload_grammar = ModsSorted /\ g_dup payload_grammar = DupRefused) /\
+  Forall wordy (g_prims payload_grammar) /\
+  payload_rules = pinned_payload_rules /\ payload_tx = pinned_payload_tx /\ relmod_fn_text = pinned_fn_text.
 Proof.
   exact (conj child_paths_are_fresh (conj alt_paths_are_fresh (conj all_block_kinds_visited
-         (conj (f_equal2 andb (f_equal2 andb alt_shape eq_refl) eq_refl) every_map_walk_is_sorted)))).
+         (conj (f_equal2 andb (f_equal2 andb alt_shape eq_refl) eq_refl) (conj every_map_walk_is_sorted
+         (conj payload_grammar_shape (conj payload_primitives_wordy (conj payload_rules_as_modelled
+         (conj payload_tx_as_modelled relmod_functions_as_modelled))))))))).
 Qed.
 Print Assumptions C17_shape_of_current_source.
